@@ -159,6 +159,10 @@ var checks = map[string]checkCfg{
 		Rule:        "each case is a sequence of 2-25 calls through Portmapper.handleCall with the remote address drawn from {127.0.0.1, 127.9.9.9, ::1, ::ffff:127.0.0.1, 10.0.0.5, 192.168.1.7, 2001:db8::1, fe80::1%eth0, ::ffff:10.0.0.5, 128.0.0.1}, protocol version 1-5, procedure NULL/SET/UNSET/GETPORT|GETADDR/DUMP/CALLIT/9, (program, version, protocol) from a pool of 12, IPv4 and IPv6 universal addresses, malformed addresses and truncated arguments; non-trivial = a SET/UNSET from a non-loopback address, or a DUMP after >=2 changes; distinct = FNV-64 of the case JSON",
 		Assumptions: append([]string{"SET/UNSET calls that the server accepts although their arguments are malformed are not judged (the model is resynchronised)"}, baseAssumptions...),
 		Phases:      []phase{rp("rapid", "^TestC27$", 4, 1500, 16, 20000)}},
+	"C30": {Level: "exploration", Technique: "rapid TLS configurations x real TLS clients pinned to each version/certificate; end-to-end success predicates; rotation probe",
+		Rule:        "each case draws MinVersion/MaxVersion from {0, TLS1.0, 1.1, 1.2, 1.3}, ClientAuth 0-4, CAFile {none, the CA, missing}, cipher suites {nil, defaults, TLS1.2-only ECDSA, legacy ids} and 2-6 clients (pinned to TLS 1.0-1.3, presenting no / CA-signed / self-signed / foreign-CA certificate); for configurations that New and Listen accept every client tries to get a NULL RPC answered over TLS; a quarter of the cases also perform the documented certificate rotation; non-trivial = an accepted configuration met a client offering < TLS1.2 or a non-CA certificate, or a rotation was performed; distinct = FNV-64 of the case JSON",
+		Assumptions: append([]string{"real TLS handshakes on loopback with certificates generated at run time (ECDSA P-256)"}, baseAssumptions...),
+		Phases:      []phase{rp("rapid", "^TestC30$", 6, 40, 16, 600)}},
 	"C02": {Level: "exploration", Technique: "rapid histories vs POSIX tree model + cached-vs-uncached differential",
 		Rule:        "cases are rapid-generated sequential histories of LOOKUP/CREATE/MKDIR/SYMLINK/REMOVE/RMDIR/RENAME/READDIR(PLUS)/GETATTR/READLINK over names {a,b,c} to depth 3, addressed through every handle ever issued (stale ones included); each history runs under the all-off baseline and k cached configurations (quick 3, thorough 6 of 15); non-trivial = a read-type request on a name or directory affected by an earlier successful mutation, executed under a configuration with at least one cache on; distinct = FNV-64 of the case JSON",
 		Assumptions: append([]string{"documented latitude L1-L7 of DESIGN.md §5 C02 (REMOVE of empty dir, UNCHECKED/EXCLUSIVE on existing objects, error code identity not compared against the model, path-bound handles)"}, baseAssumptions...),
